@@ -553,6 +553,7 @@ PAIR_QUICK = [9, 99]  # absolute starts
 PAIR_FULL = [9, 10, 99, 100, 999]  # absolute starts
 MULTI_QUICK = [9, 99]  # absolute starts for states shifting >= 3 counters (quick)
 MULTI_FULL = [9, 10, 99]  # ... (thorough)
+SWEEP_CONFIRM_CAP = 600  # at most this many sweep mismatches are re-executed as forked histories
 IRRELEVANT_QUICK = [9]  # absolute starts at which forms NOT consuming the shifted class are also checked
 IRRELEVANT_FULL = [9, 99]
 
@@ -667,10 +668,16 @@ def main(argv):
             if ((c, k, n) in cand) != ((c, k, n) in SINGLE_BAD):
                 raise RuntimeError(f"sweep (installed counter) disagrees with the forked history at {c}+{k}:{n}")
     run.count("sweep_cases_cross_checked_against_forked_histories", n_both)
+    extra = [x for x in sorted(cand) if x not in ran_single]
+    cap_hit = len(extra) > SWEEP_CONFIRM_CAP
+    if cap_hit:
+        # a mass failure: confirm (and report) an evenly spread deterministic subset only
+        step = -(-len(extra) // SWEEP_CONFIRM_CAP)
+        run.count("sweep_mismatches_not_re_executed_because_of_cap", len(extra) - len(extra[::step]))
+        extra = extra[::step]
     todo = {}
-    for c, k, n in sorted(cand):
-        if (c, k, n) not in ran_single:
-            todo.setdefault(((c, k),), []).append(n)
+    for c, k, n in extra:
+        todo.setdefault(((c, k),), []).append(n)
     confirmed = 0
     for d in pmap(work_states, [(s, ns, False) for s, ns in sorted(todo.items())], seed=run.seed):
         run.merge(d)
@@ -731,7 +738,9 @@ def main(argv):
     if os.environ.get("VERIF_C12_DUMP_KEYS"):
         with open(os.environ["VERIF_C12_DUMP_KEYS"], "w") as f:
             f.write("\n".join(sorted(v["key"] for v in run.violations)) + "\n")
-    run.exhaustive = True
+    run.exhaustive = not cap_hit
+    if cap_hit:
+        run.bounds["cap_hit"] = f"more than {SWEEP_CONFIRM_CAP} sweep mismatches: only a subset was re-executed and reported"
     run.assumptions += [
         "the global state relevant to signatures consists of the seven creation counters; this is checked, not "
         "assumed, for the forked histories (real object creation); the in-process sweep installs counter values "
